@@ -1,4 +1,5 @@
 (* C05 runner.  Case lines:
+     M <nv> <flags,..> | <ops T0> | ... | <cmds>   E4 controlled multi-vCPU replay; model = C05_E4.cmd_labels run through C05_Model.step
      P <decls> | <ops T0> | <ops T1> | ...     E2 program (harness/E2/e2.h); model = coop_result
      A <n> <rounds> <bound> <schedule>         E3 schedule for asymmetric_spinLock; model = asym_e3
    One output line per case, same format as the implementation harness. *)
@@ -14,6 +15,8 @@ let parse_op (part : string) : op =
   | ["yield"] -> OYield
   | ["interrupt"; k; e] -> OInterrupt (arg_n k, z_of_string e)
   | ["interrupt"; k] -> OInterrupt (arg_n k, z_of_string "4")
+  | ["create"; k; j; w] -> OCreate (arg_n k, (int_of_string j <> 0), (int_of_string w <> 0))
+  | ["migrate"; k; u] -> OMigrate (arg_n k, arg_n u)
   | ["create"; k; j] -> OCreate (arg_n k, (int_of_string j <> 0), false)
   | ["create"; k] -> OCreate (arg_n k, false, false)
   | ["join"; k] -> OJoin (arg_n k)
@@ -69,12 +72,87 @@ let run_asym n rounds bound sched =
   let strs = List.filter_map show_obs log in
   Printf.printf "livelock=%d steps=%d digest=%s log=%s\n" (if livelock then 1 else 0) (List.length strs) (fnv strs) (String.concat " " strs)
 
+
+(* ---- E4: controlled multi-vCPU replay (coq/C05/C05_E4.v) ---- *)
+let parse_cmd (w : string) : cmd =
+  if String.length w < 2 then raise Bad else
+  let arg = String.sub w 1 (String.length w - 1) in
+  match w.[0] with
+  | 's' -> CStep (arg_n arg) | 'y' -> CBlock (arg_n arg) | 'r' -> CResume (arg_n arg)
+  | 'w' -> CScan (arg_n arg) | 'a' -> CAuto (arg_n arg) | 't' -> CTick (z_of_string arg)
+  | _ -> raise Bad
+let ion = int_of_nat
+let show_label = function
+  | LStep v -> Printf.sprintf "LStep%d" (ion v)
+  | LDrain v -> Printf.sprintf "LDrain%d" (ion v)
+  | LResume v -> Printf.sprintf "LResume%d" (ion v)
+  | LSteal (v, u, t) -> Printf.sprintf "LSteal%d<%d:T%d" (ion v) (ion u) (ion t)
+  | LTick d -> "LTick" ^ string_of_z d
+let show_tids l = if l = [] then "-" else String.concat "," (List.map (fun t -> string_of_int (ion t)) l)
+let state_letter = function NOTCREATED -> "N" | READY -> "Y" | RUNNING -> "R" | SLEEPING -> "S" | STANDBY -> "B" | DONE -> "D"
+let e4_dump nv n s =
+  let b = Buffer.create 256 in
+  for v = 0 to nv - 1 do
+    let vc = getvc s (nat_of_int v) in
+    let sq = List.sort compare (List.map ion vc.v_sleepq) in
+    Buffer.add_string b (Printf.sprintf "V%d[r=%s q=%s b=%s n=%s] " v (show_tids vc.v_runq)
+      (if sq = [] then "-" else String.concat "," (List.map string_of_int sq)) (show_tids vc.v_standby) (string_of_z vc.v_nthreads))
+  done;
+  for k = 0 to n + nv - 1 do
+    let th = getth s (nat_of_int k) in
+    let user = k >= nv && k < n in
+    let cnt = if user then Printf.sprintf "c%d%d%d" (ion th.g_started) (ion th.g_finished) (ion th.g_disposed) else "" in
+    match th.th_state with
+    | NOTCREATED -> ()
+    | DONE -> Buffer.add_string b (Printf.sprintf "T%d=D%s " k cnt)
+    | st ->
+        Buffer.add_string b (Printf.sprintf "T%d=%s%d%s%s%s%s " k (state_letter st) (ion th.th_vcpu)
+          (if th.th_insleep then "z" else "")
+          (match th.th_waitq with Some j -> Printf.sprintf "w%d" (ion j) | None -> "")
+          (if int_of_z th.th_err <> 0 then "e" ^ string_of_z th.th_err else "") cnt)
+  done;
+  String.trim (Buffer.contents b)
+let rec take k l = if k <= 0 then [] else match l with [] -> [] | x :: r -> x :: take (k - 1) r
+let run_e4 (line : string) =
+  let secs = String.split_on_char '|' line in
+  let nsec = List.length secs in
+  if nsec < 3 then print_endline "BADCASE" else
+  let head = split_on ' ' (List.hd secs) in
+  let progs = List.filteri (fun i _ -> i > 0 && i < nsec - 1) secs in
+  let cmds = split_on ' ' (String.trim (List.nth secs (nsec - 1))) in
+  match head with
+  | ["M"; nvs; fl] ->
+      let nv = int_of_string nvs in
+      let fls = Array.of_list (String.split_on_char ',' fl) in
+      let ps = List.map parse_sec progs in
+      let n = List.length ps in
+      if nv < 1 || nv > 8 || n < nv || Array.length fls <> nv then print_endline "BADCASE" else
+      let flags v = let i = ion v in if i < nv then (String.contains fls.(i) 'a', String.contains fls.(i) 'p') else (false, false) in
+      let pr = nth_prog ps in
+      let s = ref (init_state (nat_of_int nv) (nat_of_int n) flags (z_of_string "1000")) in
+      let segs = ref [ "init " ^ e4_dump nv n !s ] in
+      let cls = ref false and clash = ref false in
+      List.iter (fun w ->
+        let c = parse_cmd w in
+        let labels = cmd_labels pr !s c in
+        let ntr = List.length !s.s_trace in
+        List.iter (fun l -> if f23_class !s l then cls := true; s := step pr !s l) labels;
+        if phys_clash !s then clash := true;
+        let evs = List.rev (take (List.length !s.s_trace - ntr) !s.s_trace) in
+        segs := (Printf.sprintf "%s {%s} ev=%s %s" w (String.concat " " (List.map show_label labels))
+                   (if evs = [] then "-" else String.concat "," (List.map show_ev evs)) (e4_dump nv n !s)) :: !segs) cmds;
+      let pre = (if !s.s_stuck then "STUCK " else "") ^ (if !s.s_tie then "TIE " else "")
+                ^ (if !cls then "{F23CLASS} " else "") ^ (if !clash then "{F23RUN} " else "") in
+      print_endline (pre ^ String.concat " ;; " (List.rev !segs))
+  | _ -> print_endline "BADCASE"
+
 let () =
   iter_lines Sys.argv.(1) (fun l ->
     try
       if l.[0] = 'P' then run_prog l
+      else if l.[0] = 'M' then run_e4 l
       else match split_on ' ' l with
         | ["A"; n; r; b; sched] -> run_asym (int_of_string n) (int_of_string r) (int_of_string b) sched
         | ["A"; n; r; b] -> run_asym (int_of_string n) (int_of_string r) (int_of_string b) ""
         | _ -> print_endline "BADCASE"
-    with Bad -> print_endline "BADCASE")
+    with Bad | Failure _ | Invalid_argument _ | Not_found -> print_endline "BADCASE")
